@@ -28,7 +28,7 @@ class A(Adapter):
     serves = {"C01", "C04", "C05", "C07", "C10", "C11", "C12"}
     terminate_on_invalid = False
     max_steps = 70
-    ops = ("state", "step", "judge", "instance", "bounds")
+    ops = ("state", "step", "judge", "instance", "bounds", "spec")
 
     # ---------------------------------------------------------------- configurations
     def configs(self, tier):
@@ -125,6 +125,18 @@ class A(Adapter):
     # (Props.C11.rware_episode_last_by_limit / rware_episode_first_last; the only other cause of LAST is a collision)
     def horizon(self, env):
         return int(env.time_limit)
+
+    # ---------------------------------------------------------------- wave 4 (C01; hook of the C12 sweep)
+    # the declared specs against the model's obsSpec / actionSpec / reward / discount spec (robot_warehouse.spec), the reset
+    # timestep, the observation arrays against `toNValue`, observation_spec.validate against (obsSpec cfg A).valid and the invariant
+    # SpecInv of the membership theorems on every implementation state of a few episodes incl. the terminal one (collision or time
+    # limit); theorems robot_warehouse_obsSpec_generated, robot_warehouse_*_obs_valid, robot_warehouse_specInv_invariant
+    def synthetic(self, ctx, cfg, env, runner, rng, drv):
+        import wave3_routing as w3
+
+        w3.check_specs(ctx, self, cfg, env, drv)
+        w3.check_reset_and_obs(ctx, self, cfg, env, runner, rng, drv, 3 if ctx.quick else 8, 14 if ctx.quick else 80,
+                               policies=("uniform", "masked", "adversarial"), extra="spec_inv")
 
     # ---------------------------------------------------------------- policies
     def _courier(self, env, s, i, rng):
